@@ -15,6 +15,9 @@ func TestSiteDbg(t *testing.T) {
 		t.Fatal(err)
 	}
 	B := newBounds(P)
+	for _, l := range B.applyPremises() {
+		t.Log(l)
+	}
 	fn, err := P.Func(os.Getenv("BFN"))
 	if err != nil {
 		t.Fatal(err)
